@@ -76,6 +76,7 @@ PLAN = {
         "engines": [
             {"name": "n-sigstrings", "argv": [VNATIVE, "sig", "--property", "C09"]},
             {"name": "g-sigfamily", "argv": VGEN + ["family", "--property", "C09"]},
+            {"name": "g-arms", "argv": VGEN + ["c08", "--property", "C09"]},
         ],
     },
     "C10": {
